@@ -87,7 +87,26 @@ func classifyStore(err error) string {
 type store interface {
 	do(op string, c cid.Cid, d []byte, many []Blk) string
 	fileBytes() []byte
+	reopen(o wOpts, roots []cid.Cid) error
 	cleanup()
+}
+
+func (s *bsStore) reopen(o wOpts, roots []cid.Cid) error {
+	rw, err := blockstore.OpenReadWrite(s.path, roots, o.opts()...)
+	if err != nil {
+		return err
+	}
+	s.rw = rw
+	return nil
+}
+
+func (s *stStore) reopen(o wOpts, roots []cid.Cid) error {
+	sc, err := storage.OpenReadableWritable(s.mf, roots, o.opts()...)
+	if err != nil {
+		return err
+	}
+	s.sc = sc
+	return nil
 }
 
 type bsStore struct {
